@@ -2,7 +2,9 @@
 # usage: seedmatrix.sh [seed-dir-name ...]   (default: all under /verif/seeded)
 # Runs, for every seeded change, the quick check of the property it breaks (and of the
 # extra properties listed in meta "also") against a scratch worktree with the change applied.
-# Never touches /repo's working tree or /verif/evidence.
+# Never touches /repo's working tree or /verif/evidence.  The checks run in "first violations are enough"
+# mode (VERIF_STOP_VIOL: the engine stops exploring after 3 violations outside the known findings and the
+# driver skips the remaining harness entries once one is reported); set VERIF_STOP_VIOL=0 for full runs.
 WT=/tmp/seedrepo-$$
 EV=/tmp/seedev-$$
 git -C /repo worktree add -q $WT HEAD || exit 9
@@ -16,7 +18,7 @@ for s in $seeds; do
   extra=$(python3 -c "import json;print(' '.join(json.load(open('/verif/seeded/$s/meta.json')).get('also',[])))")
   for c in $p $extra; do
     if ! grep -q "\"$c\"" /verif/MANIFEST.json; then echo "$s: $c not claimed"; continue; fi
-    out=$(VERIF_REPO=$WT VERIF_EVIDENCE=$EV ./check $c 2>&1); rc=$?
+    out=$(VERIF_REPO=$WT VERIF_EVIDENCE=$EV VERIF_STOP_VIOL=${VERIF_STOP_VIOL:-3} ./check $c 2>&1); rc=$?
     first=$(echo "$out" | grep -E "^  harness" | head -1 | cut -c1-160)
     echo "$s: check $c rc=$rc $first"
   done
